@@ -24,7 +24,7 @@ func genC10(m *M, histories, length int) {
 			}
 		}
 		for v := 0; v < ns; v++ {
-			m.putScalar(v, []string{"zero", "one", "two", "three", "small", "small", "minus_one", "random"}[m.rng.Intn(8)])
+			m.putScalar(v, []string{"zero", "one", "two", "three", "small", "small", "minus_one", "random", "mont_near_const", "mont_window"}[m.rng.Intn(10)])
 		}
 		fullMuls, pows := 0, 0
 		for i := 0; i < length; i++ {
@@ -163,6 +163,13 @@ func genC10(m *M, histories, length int) {
 			case 36:
 				m.SIsZero(sr)
 				m.SEqual(sr, sa)
+				if m.rng.Intn(3) == 0 { // a value whose stored limbs differ from another variable's in one bit / limb
+					_, _, va, vb := m.scalarPair()
+					m.SSetInt(sr, va)
+					m.SSetInt(sa, vb)
+					m.SEqual(sr, sa)
+					m.SIsOne(sr)
+				}
 			case 37:
 				switch m.rng.Intn(4) {
 				case 0:
